@@ -441,7 +441,7 @@ func TestC10(t *testing.T) {
 		case n > 16:
 			mc = "m=17..31"
 		}
-		nontrivial := n > 32 || fn == "anonymous" || (clibnacl.Available && fn != "auth")
+		nontrivial := n > 32 || fn != "auth"
 		key := fmt.Sprintf("%s|%s|%s|%s", fn, mc, gen.LenClass(n, 64), sub)
 		c.Case(nontrivial, key, "fn="+fn, mc, lc, fc)
 		for _, part := range splitBar(sub) {
